@@ -25,6 +25,8 @@ func init() {
 			dumpAssert(p)
 		case "effects":
 			dumpEffects(p, os.Args[3:])
+		case "guards":
+			dumpGuards(p)
 		case "slots":
 			tt := p.tokenTable()
 			for _, f := range p.SortedFuncs() {
@@ -244,6 +246,15 @@ func dumpEffects(p *Program, names []string) {
 		}
 		for _, u := range s.shallow {
 			fmt.Printf("   shallow-copy %s %s\n", p.Pos(u.Pos), u.What)
+		}
+	}
+}
+
+func dumpGuards(p *Program) {
+	for _, pr := range p.slotPairs() {
+		tname := pr.T.Obj().Name()
+		for _, g := range p.printGuards(p.Method(tname, "String")) {
+			fmt.Printf("%s.%s guarded by %v at %s\n", tname, g.field, g.guards, p.Pos(g.pos.Pos()))
 		}
 	}
 }
